@@ -207,7 +207,13 @@ pub fn find_scc(release: bool) -> Result<(PathBuf, String), String> {
 }
 
 impl Cli {
+    /// a run that exceeds the limit is repeated once with five times the limit (machine load); C18 is about crashes,
+    /// not speed: a timeout is never a violation, only an inconclusive verdict
     pub fn run(&self, args: &[&str], limit_ms: u64) -> CliRes {
+        let r = self.run_once(args, limit_ms);
+        if r.timed_out { self.run_once(args, limit_ms * 5) } else { r }
+    }
+    fn run_once(&self, args: &[&str], limit_ms: u64) -> CliRes {
         let errf = self.work.join("stderr.txt");
         let ef = std::fs::File::create(&errf).unwrap();
         let child = std::process::Command::new(&self.scc).args(args).current_dir(&self.work).env("RUST_BACKTRACE", "0").env("NO_COLOR", "1")
@@ -244,7 +250,7 @@ const STACK_MSG: &str = "overflowed its stack";
 /// judge one scc run.  `Ok(tag)` or `Err(violation)`
 fn judge_cli(cmd: &str, r: &CliRes, inproc: Option<&Outcome>, depth: Option<usize>) -> Result<String, String> {
     let c = slug(cmd);
-    if r.timed_out { return Err(format!("class=timeout stage=cli-{c}{}", depth.map(|d| format!(" depth={d}")).unwrap_or_default())); }
+    if r.timed_out { return Ok(format!("cli-{c}:timeout-inconclusive")); }
     if r.stderr.contains(STACK_MSG) { return Err(format!("class=stack-exhaustion stage=cli-{c} depth={}", depth.map(|d| d.to_string()).unwrap_or("?".into()))); }
     if let Some(m) = panic_message(&r.stderr) {
         let valid = inproc.map(|o| matches!(o.entry, Some(Ok(_))));
@@ -316,28 +322,37 @@ pub fn cmd_child(path: &str) {
 }
 
 fn run_child(path: &Path, limit_ms: u64, depth: usize) -> (String, Option<String>) {
+    let (m, rv, timed_out) = run_child_once(path, limit_ms, depth);
+    if !timed_out { return (m, rv); }
+    // once more with five times the limit; a second timeout is an inconclusive verdict, never a violation
+    let (m2, rv2, timed_out2) = run_child_once(path, limit_ms * 5, depth);
+    if !timed_out2 { return (m2, rv2); }
+    let st = m2.split("stage=").nth(1).and_then(|x| x.split_whitespace().next()).unwrap_or("?").to_string();
+    (format!("(ok timeout-inconclusive timeout-stage:{st})"), rv2)
+}
+fn run_child_once(path: &Path, limit_ms: u64, depth: usize) -> (String, Option<String>, bool) {
     let exe = std::env::current_exe().unwrap();
     let errf = path.with_extension("stderr");
     let outf = path.with_extension("stdout");
     let child = std::process::Command::new(exe).arg("robust-child").arg(path).env("RUST_BACKTRACE", "0")
         .stdin(std::process::Stdio::null()).stdout(std::fs::File::create(&outf).unwrap()).stderr(std::fs::File::create(&errf).unwrap()).spawn();
-    let mut child = match child { Ok(c) => c, Err(e) => return (format!("(skip {})", quote(&format!("spawn failed: {e}"))), None) };
+    let mut child = match child { Ok(c) => c, Err(e) => return (format!("(skip {})", quote(&format!("spawn failed: {e}"))), None, false) };
     let (st, timed_out) = wait_limit(&mut child, limit_ms);
     let stdout = String::from_utf8_lossy(&std::fs::read(&outf).unwrap_or_default()).to_string();
     let stderr = String::from_utf8_lossy(&std::fs::read(&errf).unwrap_or_default()).to_string();
     let _ = std::fs::remove_file(&outf); let _ = std::fs::remove_file(&errf);
     let main = stdout.lines().find_map(|l| l.strip_prefix("MAIN ")).map(|s| s.to_string());
     let rv = stdout.lines().find_map(|l| l.strip_prefix("RV ")).map(|s| s.to_string());
-    if timed_out { let st = stderr.lines().filter_map(|l| l.strip_prefix("@stage ")).last().unwrap_or("start").to_string(); return (format!("(viol {})", quote(&format!("class=timeout stage={st} depth={depth} limit={limit_ms}ms"))), rv); }
+    if timed_out { let st = stderr.lines().filter_map(|l| l.strip_prefix("@stage ")).last().unwrap_or("start").to_string(); return (format!("(timeout stage={st} depth={depth} limit={limit_ms}ms)"), rv, true); }
     let sig = st.and_then(|s| s.signal());
     let last_stage = stderr.lines().filter_map(|l| l.strip_prefix("@stage ")).last().unwrap_or("start").to_string();
-    if stderr.contains(STACK_MSG) || sig == Some(11) { return (format!("(viol {})", quote(&format!("class=stack-exhaustion stage={last_stage} depth={depth}"))), rv); }
-    if let Some(s) = sig { return (format!("(viol {})", quote(&format!("class=child-signal signal={s} depth={depth} \"{}\"", short(&stderr)))), rv); }
-    match main { Some(m) => (m, rv), None => (format!("(viol {})", quote(&format!("class=child-died status={:?} depth={depth} \"{}\"", st.and_then(|s| s.code()), short(&stderr)))), rv) }
+    if stderr.contains(STACK_MSG) || sig == Some(11) { return (format!("(viol {})", quote(&format!("class=stack-exhaustion stage={last_stage} depth={depth}"))), rv, false); }
+    if let Some(s) = sig { return (format!("(viol {})", quote(&format!("class=child-signal signal={s} depth={depth} \"{}\"", short(&stderr)))), rv, false); }
+    match main { Some(m) => (m, rv, false), None => (format!("(viol {})", quote(&format!("class=child-died status={:?} depth={depth} \"{}\"", st.and_then(|s| s.code()), short(&stderr)))), rv, false) }
 }
 
 #[derive(Default)]
-struct DeepRes { tags: Vec<String>, viols: Vec<String>, rv: Option<Result<Vec<String>, String>>, exhausted: bool, cli: bool }
+struct DeepRes { tags: Vec<String>, viols: Vec<String>, rv: Option<Result<Vec<String>, String>>, exhausted: bool, inconclusive: bool, cli: bool }
 
 /// one input of the deep stream: the harness pipeline in a child process (default stack), then `scc check` and
 /// `scc codegen <file> x86-64` of the release binary
@@ -351,10 +366,11 @@ fn run_deep(dir: &Path, k: usize, i: &Input, cli_release: Option<&Cli>, limit_ms
     let p = dir.join(format!("deep{k}.sc"));
     std::fs::write(&p, &i.bytes).unwrap();
     let (m, r) = run_child(&p, limit_ms, d);
-    res.exhausted = m.contains("class=stack-exhaustion") || m.contains("class=timeout");
+    res.exhausted = m.contains("class=stack-exhaustion");
+    res.inconclusive = m.contains("timeout-inconclusive");
     if res.exhausted && !in_scope {
         let st = m.split("stage=").nth(1).and_then(|x| x.split_whitespace().next()).unwrap_or("?");
-        res.tags.push(format!("beyond-scope:{}:{st}", if m.contains("class=timeout") { "timeout" } else { "stack-exhaustion" })); res.tags.push(format!("depth:{d}"));
+        res.tags.push(format!("beyond-scope:stack-exhaustion:{st}")); res.tags.push(format!("depth:{d}"));
     } else if let Some(v) = m.strip_prefix("(viol ").and_then(|s| s.strip_suffix(")")) {
         res.viols.push(unquote(v));
     } else if let Some(t) = m.strip_prefix("(ok").and_then(|s| s.strip_suffix(")")) {
@@ -371,7 +387,7 @@ fn run_deep(dir: &Path, k: usize, i: &Input, cli_release: Option<&Cli>, limit_ms
             let r = c.run(&a, limit_ms);
             match judge_cli(cmd, &r, None, Some(d)) {
                 Ok(t) => res.tags.push(format!("release-{t}")),
-                Err(v) if !in_scope && (v.starts_with("class=stack-exhaustion") || v.starts_with("class=timeout")) => res.tags.push(format!("release-cli-{cmd}:beyond-scope:{}", class_of(&v))),
+                Err(v) if !in_scope && v.starts_with("class=stack-exhaustion") => res.tags.push(format!("release-cli-{cmd}:beyond-scope:{}", class_of(&v))),
                 Err(v) => res.viols.push(v),
             }
             if r.code != Some(0) { break; }
@@ -387,8 +403,8 @@ fn run_deep(dir: &Path, k: usize, i: &Input, cli_release: Option<&Cli>, limit_ms
 // input streams
 // ------------------------------------------------------------------------------------------------
 
-pub struct Input { pub stream: &'static str, pub desc: String, pub bytes: Vec<u8>, pub depth: Option<usize>, pub force_cli: bool }
-fn inp(stream: &'static str, desc: String, bytes: Vec<u8>) -> Input { Input { stream, desc, bytes, depth: None, force_cli: false } }
+pub struct Input { pub stream: &'static str, pub desc: String, pub bytes: Vec<u8>, pub depth: Option<usize>, pub force_cli: bool, pub tags: Vec<String> }
+fn inp(stream: &'static str, desc: String, bytes: Vec<u8>) -> Input { Input { stream, desc, bytes, depth: None, force_cli: false, tags: Vec::new() } }
 
 /// a lexer for mutation purposes only (comments are dropped)
 pub fn tokenize(s: &str) -> Vec<String> {
@@ -622,6 +638,99 @@ fn stress_inputs() -> Vec<Input> {
     v.into_iter().map(|(d, t)| { let mut i = inp("stress", d.to_string(), t.into_bytes()); i.force_cli = true; i }).collect()
 }
 
+/// ACCEPTED programs with wide types and long names: the name of a type instance is the PRINTED type, so everything that
+/// could make two renderings of the same type differ (a line break at the print width of 100 columns, the width of the
+/// argument list alone vs. the whole type, the head being a type, a constructor or a destructor name) is swept:
+/// printed widths 86..114, around 40/60/80/120/160/200/300, for a type annotation + signature (shape A), a case with
+/// explicit type arguments on Either (B), a cocase and destructor call on Fun (C); names of 60..200 characters for
+/// definitions, variables, constructors, destructors, types; long argument and literal lists.
+fn wide_inputs(rng: &mut Rng) -> Vec<Input> {
+    #[derive(Clone)]
+    enum T { I, App(String, Vec<T>) }
+    fn show(t: &T) -> String { match t { T::I => "i64".into(), T::App(n, a) => format!("{n}[{}]", a.iter().map(show).collect::<Vec<_>>().join(", ")) } }
+    fn leaves(t: &mut T, out: &mut Vec<*mut T>) { match t { T::I => out.push(t as *mut T), T::App(_, a) => for x in a.iter_mut() { leaves(x, out); } } }
+    /// the width the compiler gives the type (its own parser and printer), falling back to the text length
+    fn width(t: &T) -> usize {
+        let s = show(t);
+        let s2 = s.clone();
+        std::panic::catch_unwind(move || fun::parser::fun::TyParser::new().parse(&s2).ok().map(|ty| ty.print_to_string(None).chars().count())).ok().flatten().unwrap_or(s.len())
+    }
+    fn value(t: &T, rng: &mut Rng) -> String {
+        match t {
+            T::I => (1 + rng.below(9)).to_string(),
+            T::App(n, a) => match n.as_str() {
+                "Pair" => format!("MkPair({}, {})", value(&a[0], rng), value(&a[1], rng)),
+                "Either" => if rng.chance(1, 2) { format!("Left({})", value(&a[0], rng)) } else { format!("Right({})", value(&a[1], rng)) },
+                "List" => if rng.chance(1, 2) { "Nil".into() } else { format!("Cons({}, Nil)", value(&a[0], rng)) },
+                "Fun" => format!("new {{ ap(x) => {} }}", value(&a[1], rng)),
+                "Stream" => format!("new {{ hd => {}, tl => exit 0 }}", value(&a[0], rng)),
+                w => format!("Mk{w}({})", value(&a[0], rng)),
+            },
+        }
+    }
+    fn pads(t: &T, out: &mut Vec<String>) { if let T::App(n, a) = t { if n.starts_with('W') && !out.contains(n) { out.push(n.clone()); } for x in a { pads(x, out); } } }
+    /// a random type over Pair/Either/List/Fun/Stream under the given head whose printed width is exactly `target`
+    fn build(head: &str, target: usize, rng: &mut Rng) -> Option<T> {
+        for _attempt in 0..60 {
+            let mut t = match head { "List" | "Stream" => T::App(head.into(), vec![T::I]), _ => T::App(head.into(), vec![T::I, T::I]) };
+            if show(&t).len() > target { return None; }
+            loop {
+                let w = show(&t).len();
+                if w == target { if width(&t) == target { return Some(t); } else { break; } }
+                let room = target - w;
+                let mut ls = Vec::new(); leaves(&mut t, &mut ls);
+                let l = ls[rng.below(ls.len())];
+                // growing a leaf `i64` into N[i64, i64] adds len(N) + 7, into N[i64] adds len(N) + 2, into W<pad>[i64] adds |W<pad>| + 2
+                let opts: Vec<(&str, usize, usize)> = vec![("Pair", 2, 11), ("Either", 2, 13), ("Fun", 2, 10), ("List", 1, 6), ("Stream", 1, 8)];
+                let fit: Vec<&(&str, usize, usize)> = opts.iter().filter(|o| o.2 + 3 <= room || o.2 == room).collect();
+                let new = if !fit.is_empty() && room > 16 { let o = fit[rng.below(fit.len())]; T::App(o.0.into(), vec![T::I; o.1]) }
+                          else if room >= 3 { T::App(format!("W{}", "x".repeat(room - 3)), vec![T::I]) } else { break };
+                unsafe { *l = new; }
+                if show(&t).len() > target { break; }
+            }
+        }
+        None
+    }
+    let decls = "data Pair[A, B] { MkPair(fst: A, snd: B) }\ndata Either[A, B] { Left(l: A), Right(r: B) }\ndata List[A] { Nil, Cons(x: A, xs: List[A]) }\ncodata Fun[A, B] { ap(x: A): B }\ncodata Stream[A] { hd: A, tl: Stream[A] }\n";
+    let mut widths: Vec<usize> = (86..=114).collect();
+    widths.extend([38, 40, 42, 58, 60, 62, 78, 79, 80, 81, 82, 118, 119, 120, 121, 122, 158, 160, 162, 198, 199, 200, 201, 202, 298, 300, 302]);
+    let mut v = Vec::new();
+    for w in widths {
+        for shape in ["annotation", "case-type-arguments", "cocase-destructor"] {
+            let head = match shape { "case-type-arguments" => "Either", "cocase-destructor" => "Fun", _ => ["Pair", "Either", "List", "Fun", "Stream"][rng.below(5)] };
+            let Some(t) = build(head, w, rng) else { continue };
+            let ts = show(&t);
+            let mut ps = Vec::new(); pads(&t, &mut ps);
+            let padd: String = ps.iter().map(|p| format!("data {p}[A] {{ Mk{p}(w: A) }}\n")).collect();
+            let val = value(&t, rng);
+            let body = match (shape, &t) {
+                ("case-type-arguments", T::App(_, a)) => format!("def mk(): {ts} {{ {val} }}\ndef main(): i64 {{ mk().case[{}, {}] {{ Left(a) => 1, Right(b) => 2 }} }}\n", show(&a[0]), show(&a[1])),
+                ("cocase-destructor", T::App(_, a)) => format!("def main(): i64 {{ let f: {ts} = {val}; let r: {} = f.ap[{}, {}]({}); 0 }}\n", show(&a[1]), show(&a[0]), show(&a[1]), value(&a[0], rng)),
+                _ => format!("def mk(): {ts} {{ {val} }}\ndef use_it(t: {ts}): i64 {{ 0 }}\ndef main(): i64 {{ let e: {ts} = mk(); use_it(e) }}\n"),
+            };
+            v.push(inp("wide", format!("{shape} type of width {w} head {head}"), format!("{decls}{padd}{body}").into_bytes()));
+        }
+    }
+    // long names
+    for len in [60usize, 95, 99, 100, 101, 105, 200, 1000] {
+        let n = "n".repeat(len - 1);
+        v.push(inp("wide", format!("long names of {len} characters"), format!(
+            "data T{n}[A] {{ C{n}(f{n}: A) }}\ncodata D{n}[A] {{ d{n}(x{n}: A): A }}\ndef g{n}(v{n}: T{n}[i64]): i64 {{ v{n}.case[i64] {{ C{n}(y{n}) => y{n} }} }}\ndef main(): i64 {{ let o{n}: D{n}[i64] = new {{ d{n}(z{n}) => z{n} }}; label l{n} {{ g{n}(C{n}(o{n}.d{n}[i64](goto l{n} (1)))) }} }}\n").into_bytes()));
+    }
+    // long argument and literal lists
+    for k in [12usize, 13, 14, 20, 40] {
+        let params = (0..k).map(|i| format!("a{i}: i64")).collect::<Vec<_>>().join(", ");
+        let args = (0..k).map(|i| format!("{}", 1_000_000_007u64 * (i as u64 + 1))).collect::<Vec<_>>().join(", ");
+        let names = (0..k).map(|i| format!("a{i}")).collect::<Vec<_>>().join(", ");
+        v.push(inp("wide", format!("constructor and call with {k} long literals"), format!(
+            "data Big {{ MkBig({params}) }}\ndef f({params}): i64 {{ a0 }}\ndef main(): i64 {{ MkBig({args}).case {{ MkBig({names}) => f({names}) }} }}\n").into_bytes()));
+        let list = (0..k).fold("Nil".to_string(), |acc, i| format!("Cons({}, {acc})", 9_000_000_000_000_000_000u64 / (i as u64 + 1)));
+        v.push(inp("wide", format!("list of {k} long literals"), format!("{decls}def main(): i64 {{ let l: List[i64] = {list}; 0 }}\n").into_bytes()));
+    }
+    for (k, i) in v.iter_mut().enumerate() { i.force_cli = k % 4 == 0; }
+    v
+}
+
 /// long single lines: miette's graphical report handler pads to the column of a label
 fn longline_inputs() -> Vec<Input> {
     let mut v = Vec::new();
@@ -781,13 +890,17 @@ fn witness_name(viol: &str) -> String {
     let msg: String = viol.chars().filter(|c| !c.is_ascii_digit()).collect();
     format!("{}-{:08x}", slug(&class), hash64(msg.as_bytes()) as u32)
 }
-/// keep a failing input under corpus/robust/ (only when no witness of that class and message exists yet)
+/// keep a minimised failing input under .cache/robust-witnesses/ (only when no witness of that class and message
+/// exists yet, there or among the committed files of corpus/robust/).  A check run never writes into corpus/: files
+/// there are committed deliberately (copy the witness over) and are regression inputs of every run.
 fn keep_witness(viol: &str, bytes: &[u8], how: &str, fails: Option<&mut dyn FnMut(&[u8]) -> bool>) -> String {
-    let dir = PathBuf::from(format!("{}/corpus/robust", pipe::verif_root()));
-    let _ = std::fs::create_dir_all(&dir);
     let name = witness_name(viol);
+    let committed = PathBuf::from(format!("{}/corpus/robust/{name}.sc", pipe::verif_root()));
+    if committed.exists() { return format!("corpus/robust/{name}.sc"); }
+    let dir = PathBuf::from(format!("{}/.cache/robust-witnesses", pipe::verif_root()));
+    let _ = std::fs::create_dir_all(&dir);
     let path = dir.join(format!("{name}.sc"));
-    let rel = format!("corpus/robust/{name}.sc");
+    let rel = format!(".cache/robust-witnesses/{name}.sc");
     if path.exists() { return rel; }
     let small = match fails { Some(f) => minimise(bytes, f, 1500), None => bytes.to_vec() };
     let tmp = dir.join(format!(".{name}.{}.tmp", std::process::id()));
@@ -826,7 +939,15 @@ pub fn cmd_robust(seed: u64, n: usize, out: &mut dyn Write, args: &[String]) {
     for (name, t) in &sources { inputs.push(inp("baseline", format!("file {}", name.rsplit('/').next().unwrap_or(name)), t.clone().into_bytes())); }
     for (k, g) in gens.iter().enumerate() { inputs.push(inp("baseline", format!("gen {seed}:{k}"), g.text.clone().into_bytes())); }
     // regression inputs: the saved witnesses
-    for f in pipe::collect_sc(&[format!("{root}/corpus/robust")]) { if let Ok(b) = std::fs::read(&f) { let mut i = inp("witness", format!("file {}", f.file_name().unwrap().to_string_lossy()), b); i.force_cli = true; inputs.push(i); } }
+    for f in pipe::collect_sc(&[format!("{root}/corpus/robust")]) {
+        if let Ok(b) = std::fs::read(&f) {
+            // corpus/robust/guards: one program per guard of the type checker that a single layer enforces (lib/c18_guards.py)
+            let guard = f.parent().is_some_and(|p| p.ends_with("guards"));
+            let mut i = inp(if guard { "guards" } else { "witness" }, format!("file {}", f.file_name().unwrap().to_string_lossy()), b);
+            i.force_cli = !guard;
+            inputs.push(i);
+        }
+    }
     let all_texts: Vec<(String, String)> = sources.iter().cloned().chain(gens.iter().enumerate().map(|(k, g)| (format!("gen{k}"), g.text.clone()))).collect();
     let pick = |rng: &mut Rng| -> usize { rng.below(all_texts.len().max(1)) };
     if !all_texts.is_empty() {
@@ -842,11 +963,56 @@ pub fn cmd_robust(seed: u64, n: usize, out: &mut dyn Write, args: &[String]) {
             while at < bytes.len() && trunc_left > 0 { inputs.push(inp("truncate", format!("at {at} of {}", all_texts[b].0.rsplit('/').next().unwrap_or("")), bytes[..at].to_vec())); at += step; trunc_left -= 1; }
         }
     }
+    // identifier-kind swaps of accepted programs, stratified over (position, kind of the old, kind of the new identifier)
+    if !all_texts.is_empty() {
+        let budget = n * 20 / 100;
+        let mut groups: BTreeMap<String, Vec<(usize, crate::gen_idswap::Swap)>> = BTreeMap::new();
+        let mut order: Vec<usize> = (0..all_texts.len()).collect();
+        for i in (1..order.len()).rev() { let j = rng.below(i + 1); order.swap(i, j); }
+        let mut total = 0usize;
+        for b in order.into_iter().take(120) {
+            if all_texts[b].1.len() > 6000 { continue; }
+            for sw in crate::gen_idswap::swaps(&all_texts[b].1) { groups.entry(sw.key()).or_default().push((b, sw)); total += 1; }
+            if total > budget * 40 { break; }
+        }
+        for g in groups.values_mut() { for i in (1..g.len()).rev() { let j = rng.below(i + 1); g.swap(i, j); } }
+        let mut left = budget.min(total);
+        // the swaps between the kinds that different layers of the checker tell apart (variable / covariable) in the
+        // positions that consume a value directly come first (up to 4 per key, at most 60 % of the budget); then all
+        // keys round-robin in a shuffled order
+        let hot = |key: &str| key.contains("covar") && ["op-operand", "print-arg", "if-operand", "case-scrutinee", "dtor-scrutinee", "goto-target", "goto-arg", "call-arg", "ctor-arg", "dtor-arg", "exit-arg", "let-bound"].iter().any(|p| key.starts_with(p));
+        let mut keys: Vec<String> = groups.keys().cloned().collect();
+        for i in (1..keys.len()).rev() { let j = rng.below(i + 1); keys.swap(i, j); }
+        let mut push = |key: &str, b: usize, sw: crate::gen_idswap::Swap, inputs: &mut Vec<Input>| {
+            let mut i = inp("idswap", format!("{} {}=>{} of {}", key, sw.old, sw.new, all_texts[b].0.rsplit('/').next().unwrap_or("")), sw.text.into_bytes());
+            i.tags.push(format!("idswap:{key}"));
+            inputs.push(i);
+        };
+        let hot_budget = left * 6 / 10;
+        let mut used = 0usize;
+        for round in 0..4 {
+            for key in keys.iter().filter(|k| hot(k)) {
+                if used >= hot_budget { break; }
+                let _ = round;
+                if let Some((b, sw)) = groups.get_mut(key).and_then(|g| g.pop()) { push(key, b, sw, &mut inputs); used += 1; }
+            }
+        }
+        left -= used;
+        while left > 0 {
+            let mut any = false;
+            for key in &keys {
+                if left == 0 { break; }
+                if let Some((b, sw)) = groups.get_mut(key).and_then(|g| g.pop()) { push(key, b, sw, &mut inputs); left -= 1; any = true; }
+            }
+            if !any { break; }
+        }
+    }
     // (d)
     if n > 0 { inputs.extend(literal_inputs()); }
     // (f)
     if n > 0 { inputs.extend(entry_inputs()); }
     if n > 0 { inputs.extend(stress_inputs()); }
+    if n > 0 { let mut r = rng.fork(); inputs.extend(wide_inputs(&mut r)); }
     // long lines (through the binary: the report renderer)
     if n > 0 { inputs.extend(longline_inputs()); }
     // (g)
@@ -884,7 +1050,7 @@ pub fn cmd_robust(seed: u64, n: usize, out: &mut dyn Write, args: &[String]) {
     let cli_every = (total / want_cli.max(1)).max(1);
 
     // ---- the deep stream runs in worker threads (several children at a time) while the other streams are processed here
-    let child_limit: u64 = if thorough { 120_000 } else { 20_000 };
+    let child_limit: u64 = std::env::var("ROBUST_LIMIT_MS").ok().and_then(|v| v.parse().ok()).unwrap_or(if thorough { 120_000 } else { 20_000 });
     let todo: Vec<usize> = inputs.iter().enumerate().filter(|(_, i)| i.depth.is_some()).map(|(k, _)| k).collect();
     let next = std::sync::atomic::AtomicUsize::new(0);
     let results: std::sync::Mutex<Vec<(usize, DeepRes)>> = std::sync::Mutex::new(Vec::new());
@@ -900,6 +1066,7 @@ pub fn cmd_robust(seed: u64, n: usize, out: &mut dyn Write, args: &[String]) {
         let head = format!("({} {} h{:08x})", i.stream, quote(&i.desc), h as u32);
         let text = std::str::from_utf8(&i.bytes).ok();
         let mut tags: Vec<String> = vec![format!("stream:{}", i.stream)];
+        tags.extend(i.tags.iter().cloned());
         if !dup { tags.insert(0, "nt".into()); }
         let mut viols: Vec<String> = Vec::new();
         let mut rv: Option<Result<Vec<String>, String>> = None;
@@ -908,7 +1075,7 @@ pub fn cmd_robust(seed: u64, n: usize, out: &mut dyn Write, args: &[String]) {
             let fam = i.desc.split_whitespace().next().unwrap_or("").to_string();
             let r = deep.unwrap_or_default();
             let e = deep_max.entry(fam).or_insert((0, None));
-            if r.exhausted { if e.1.is_none_or(|x| d < x) { e.1 = Some(d); } } else if d > e.0 { e.0 = d; }
+            if r.exhausted { if e.1.is_none_or(|x| d < x) { e.1 = Some(d); } } else if !r.inconclusive && d > e.0 { e.0 = d; }
             if r.cli { cli_count += 1; }
             tags.extend(r.tags); viols.extend(r.viols); rv = r.rv;
         } else {
